@@ -302,7 +302,7 @@ def judge(module, records, tag, envv=None, chunk=40000, heap="1500m", timeout=18
 
 
 def validate(module, logs, tag, cfg_text, envv=None, heap="1500m", timeout=1800,
-             chunk=200, jobs=8, dfs=True):
+             chunk=200, jobs=8, dfs=True, why_rejects=True):
     """Validate recorded executions against trace spec spec/<module>.tla.
 
     `logs` is a list of JSON-able logs (each a dict with key "ev": list of events, plus
@@ -365,7 +365,7 @@ def validate(module, logs, tag, cfg_text, envv=None, heap="1500m", timeout=1800,
             for k in range(n):
                 L = logs[c + k].get("n", len(logs[c + k].get("ev", [])))
                 verdicts[c + k] = {
-                    "accepted": (k + 1) in accepted and not inv and (k + 1) not in whys,
+                    "accepted": (k + 1) in accepted and not inv and not (why_rejects and (k + 1) in whys),
                     "matched": maxl[k] - 1 if k < len(maxl) else 0,
                     "len": L,
                     "why": whys.get(k + 1) or (inv[:1] if inv else None),
